@@ -13,11 +13,12 @@ from ..pipeline import Leg
 ID = 'C16'
 HARNESS_BIN = 'c16'
 RUN_MODULE = 'Run.C16'
-COQ_EXTRA = ['Gen.C16Startup_ok']
+COQ_EXTRA = ['Gen.C16Startup_ok', 'Gen.C16Acquire_ok']
 REPO_BINS = ['sccache']
 THEOREMS = ['C16_conservation', 'C16_bound', 'C16_bound_live', 'C16_no_leak', 'C16_no_leak_cancelled_waiter',
             'C16_no_leak_quiescent', 'C16_release_at_process_exit', 'C16_eof_moves_no_token', 'C16_next_runs_without_eof',
             'C16_server_client_owns_its_pool', 'C16_every_acquired_holds_a_token', 'C16_pool_survives_startup',
+            'C16_start_needs_token', 'C16_token_only_by_receive', 'C16_slot_only_by_hand_over',
             'C16_full_parallelism_restored', 'C16_fifo', 'C16_never_stuck', 'C16_progress']
 ASSUMPTIONS = [
     'the token is released when the compiler PROCESS exits (Child::wait), not when its stdout/stderr reach EOF: a process it '
@@ -163,7 +164,7 @@ def gen_det(rng, n, maxlen):
         nxt = 1
         used = []
         for _ in range(rng.range(1, maxlen)):
-            kind = rng.weighted([('req', 8), ('poll', 3), ('wait', 3), ('finish', 1), ('drop', 6)])
+            kind = rng.weighted([('req', 8), ('poll', 3), ('advance', 2), ('wait', 3), ('finish', 1), ('drop', 6)])
             if kind == 'req':
                 if used and rng.chance(1, 8):
                     r = rng.choice(used)
@@ -174,6 +175,8 @@ def gen_det(rng, n, maxlen):
                 ops.append([b'req', r, rng.weighted([(0, 8), (1, 2), (2, 1), (3, 1), (4, 2), (5, 2), (6, 1), (7, 1), (8, 1), (9, 1), (10, 1), (11, 1), (12, 3), (13, 1)])])
             elif kind == 'poll':
                 ops.append([b'poll'])
+            elif kind == 'advance':
+                ops.append([b'advance', rng.choice([1, 29, 31, 61, 600, 86400])])
             else:
                 r = rng.choice(used) if used and not rng.chance(1, 12) else nxt + 3
                 ops.append([kind.encode(), r])
@@ -192,6 +195,13 @@ def gen_det_exhaustive(depth):
     for d in range(1, min(depth, 3) + 1):
         for seq in itertools.product(alpha2, repeat=d):
             out.append([1, [list(o) for o in seq]])
+    # waiting time: the clock jumps ahead while requests queue behind running processes
+    alpha5 = [[b'req', 1, 1], [b'req', 2, 1], [b'req', 3, 2], [b'req', 4, 0], [b'advance', 31], [b'advance', 3600], [b'wait', 1],
+              [b'wait', 2], [b'drop', 4]]
+    for d in range(1, min(depth, 3) + 1):
+        for seq in itertools.product(alpha5, repeat=d):
+            if any(o[0] == b'advance' for o in seq):
+                out.append([1, [list(o) for o in seq]])
     # compilers that cannot be started: busy executable (ETXTBSY), not executable, a directory, bad interpreter
     alpha4 = [[b'req', 1, 12], [b'req', 2, 9], [b'req', 3, 10], [b'req', 4, 11], [b'req', 5, 1], [b'req', 6, 0], [b'poll'],
               [b'wait', 5], [b'drop', 6]]
@@ -210,6 +220,11 @@ def gen_det_exhaustive(depth):
 
 def monitor_det(case, out):
     k, ops = case
+    if isinstance(out, list) and out and out[0] in (b'helper_died', b'panic'):
+        if out[0] == b'helper_died':
+            return ['the jobserver helper thread died (panicked) during this history: it is the only one that hands tokens to '
+                    'waiting requests, so no request can obtain a token any more - the server cannot reach its parallelism again']
+        return ['the code under test panicked: %s' % sx.dumps(out)[:300]]
     if not isinstance(out, list) or len(out) != len(ops):
         return ['malformed implementation output: %s' % sx.dumps(out)[:300]]
     b = Book(k)
@@ -337,6 +352,11 @@ def gen_mt(rng, n, maxreq):
 
 def monitor_mt(case, out):
     k, workers, reqs = case
+    if isinstance(out, list) and out and out[0] in (b'helper_died', b'panic'):
+        if out[0] == b'helper_died':
+            return ['the jobserver helper thread died (panicked) during this history: it is the only one that hands tokens to '
+                    'waiting requests, so no request can obtain a token any more - the server cannot reach its parallelism again']
+        return ['the code under test panicked: %s' % sx.dumps(out)[:300]]
     try:
         ok, evs, avail, granted, early, late, avail_end, maxc, stuck, orphaned = out
     except Exception:
@@ -442,6 +462,11 @@ def gen_env(rng, n):
 
 def monitor_env(case, out):
     ncpus, shape, burst, discard = case
+    if isinstance(out, list) and out and out[0] in (b'helper_died', b'panic'):
+        if out[0] == b'helper_died':
+            return ['the jobserver helper thread died (panicked) during this history: it is the only one that hands tokens to '
+                    'waiting requests, so no request can obtain a token any more - the server cannot reach its parallelism again']
+        return ['the code under test panicked: %s' % sx.dumps(out)[:300]]
     if not isinstance(out, list) or len(out) != 4 or out[0] == b'panic':
         return ['Client::new() failed / malformed output: %s' % sx.dumps(out)[:300]]
     limited, pool, granted, empty = out
@@ -475,6 +500,9 @@ def translate(rep):
     from translator import c16_startup
     info = c16_startup.run(pipeline.REPO, pipeline.COQ)
     rep.oblige('translate:server_startup', True, repr(info))
+    from translator import c16_acquire
+    info = c16_acquire.run(pipeline.REPO, pipeline.COQ)
+    rep.oblige('translate:acquire_sites', True, repr(info))
 
 
 def legs(tier):
